@@ -3,8 +3,12 @@
 
 stdin : {"sessions": [SESSION], "fork": true}
   SESSION = {"id": n,
-             "groups": [{"gid": k, "layout": "positions"|"beams", "container": "DataArray"|"Dataset",
+             "groups": [{"gid": k, "layout": "positions"|"beams"|"partial", "container": "DataArray"|"Dataset",
                          "operands": {"source"|"sample"|"position"|"b1"|"b2": OPERAND (see kernels_impl.py)}}],
+                         (layout "partial": the data carries exactly the coordinates named by the operands, any of
+                          source_position, sample_position, position, incident_beam, scattered_beam (vectors), L1, L2,
+                          Ltotal, two_theta (scalars) -- a monitor without sample position, a secondary flight path alone,
+                          precomputed beams or lengths instead of positions ...)
              "calls":  [{"op": "call", "entry": ENTRY, "group": k} | {"op": "mutate", "graph": CONSTRUCTOR}]}
   ENTRY = "L1" | "L2" | "Ltotal[T]" | "Ltotal[F]" | "two_theta" | "incident_beam" | "scattered_beam" | "position"
           | "source_position" | "sample_position"                      (scippneutron.<name>(da[, scatter=...]))
@@ -30,6 +34,8 @@ from kernels_impl import build_operand, describe_result, stored
 
 COORD = {'source': 'source_position', 'sample': 'sample_position', 'position': 'position',
          'b1': 'incident_beam', 'b2': 'scattered_beam'}
+COORD.update({n: n for n in ('source_position', 'sample_position', 'incident_beam', 'scattered_beam', 'L1', 'L2', 'Ltotal',
+                             'two_theta')})
 DIM_ORDER = ['x', 'y', 'p']
 
 
@@ -79,6 +85,8 @@ def kernel_reference(layout, c):
         except Exception as ex:
             ref[name] = {'error': type(ex).__name__, 'error_text': str(ex)[:200]}
 
+    if layout == 'partial':
+        return partial_reference(c)
     if layout == 'positions':
         src, smp, pos = c['source_position'], c['sample_position'], c['position']
         inc = lambda: B.straight_incident_beam(source_position=src, sample_position=smp)  # noqa: E731
@@ -96,6 +104,50 @@ def kernel_reference(layout, c):
     put('L2', lambda: B.L2(scattered_beam=sca()))
     put('Ltotal[T]', lambda: B.total_beam_length(L1=B.L1(incident_beam=inc()), L2=B.L2(scattered_beam=sca())))
     put('two_theta', lambda: B.two_theta(incident_beam=inc(), scattered_beam=sca()))
+    return ref
+
+
+def partial_reference(c):
+    """data that carries only the coordinates c: every quantity from its definition (kernels of conversion/beamline.py applied
+    directly; a coordinate the data carries is used as it is); a quantity whose definition needs a coordinate that is neither
+    carried nor defined is a KeyError, whatever the units of the others"""
+    from scippneutron.conversion import beamline as B
+    defs = {'incident_beam': (B.straight_incident_beam, ('source_position', 'sample_position')),
+            'scattered_beam': (B.straight_scattered_beam, ('position', 'sample_position')),
+            'L1': (B.L1, ('incident_beam',)), 'L2': (B.L2, ('scattered_beam',)),
+            'two_theta': (B.two_theta, ('incident_beam', 'scattered_beam'))}
+    ltotal = {True: (B.total_beam_length, ('L1', 'L2')),
+              False: (B.total_straight_beam_length_no_scatter, ('source_position', 'position'))}
+
+    def rule(name, scatter):
+        return ltotal[scatter] if name == 'Ltotal' else defs.get(name)
+
+    def lacking(name, scatter):
+        if name in c:
+            return []
+        r = rule(name, scatter)
+        if r is None:
+            return [name]
+        return [m for a in r[1] for m in lacking(a, scatter)]
+
+    def get(name, scatter):
+        if name in c:
+            return c[name]
+        f, args = rule(name, scatter)
+        return f(**{a: get(a, scatter) for a in args})
+
+    ref = {}
+    for qn in ('L1', 'L2', 'Ltotal[T]', 'Ltotal[F]', 'two_theta', 'incident_beam', 'scattered_beam', 'position', 'source_position',
+               'sample_position'):
+        name, scatter = ('Ltotal', qn[7] == 'T') if qn.startswith('Ltotal') else (qn, True)
+        miss = lacking(name, scatter)
+        if miss:
+            ref[qn] = {'error': 'KeyError', 'error_text': 'not defined by the coordinates of the data: lacks ' + ', '.join(miss)}
+            continue
+        try:
+            ref[qn] = {'result': describe_result(get(name, scatter))}
+        except Exception as ex:
+            ref[qn] = {'error': type(ex).__name__, 'error_text': str(ex)[:200]}
     return ref
 
 
